@@ -529,12 +529,32 @@ def _events_for_text(job):
             m = len(inorder(root1))
             if m > 40:
                 continue
+            cands = []
             for name, opt, rule in persistent:
                 for k in range(m):
                     ev, _ = step_event(root1, name, opt, rule, k, "%s  =[in place %s@%d]=>  %s" % (text, name1, k1, printed1), own_tree=True)
                     if ev is not None:
                         ev["second"] = [text, name1, k1, "inplace"]
                         out.append(ev)
+                        cands.append((name, opt, rule, k))
+            # ... and some of these second steps again with BOTH steps in place (no clone at all between them): a result that is not a
+            # proper tree - one node object under two parents prints and evaluates like two copies - only shows when it is edited further
+            cands.sort(key=lambda c_: common.pick("%s|%s|%s|%d" % (text, c_[0], c_[1], c_[3]), 1000))
+            for name, opt, rule, k in cands[:(6 if int(inplace2) <= 3 else 40)]:
+                try:
+                    tree_b = t0.clone()
+                    for _, _, r in persistent:
+                        r.find_nodes(tree_b)
+                    root_b = rule1.apply_to(inorder(tree_b)[k1]).result.get_root()
+                    nodes_b = inorder(root_b)
+                    if k >= len(nodes_b) or not rule.can_apply_to(nodes_b[k]):
+                        continue
+                    ev, _ = step_event(None, name, opt, rule, -1, "%s  =[in place %s@%d, next step in place too]=>  %s" % (text, name1, k1, printed1), in_place=nodes_b[k])
+                    if ev is not None:
+                        ev["second"] = [text, name1, k1, "inplace-both"]
+                        out.append(ev)
+                except BaseException:  # noqa
+                    pass
             # ... and the order of events in which anything a rule object remembers about "the node I was asked about last" goes
             # stale: every rule object is asked about an ancestor of the target, the first step re-links the nodes below that
             # ancestor in place, and each rule object that now accepts the very same ancestor object is applied to it - in place,
@@ -635,6 +655,12 @@ SHARED_ID_FORMS = [SHARE + t for t in ["(2y + z) + 2y", "2y + (z + 2y)", "4x + 4
 NUMPY_ZERO_EQ_FORMS = ["0^0.5 * x = 0", "(0.0^2)x = 0", "(0^1.5)x = 3", "x * 0^0.5 = 2", "(0^0.5)x + 2 = 2", "(4^0.5)x = 6", "(2^2.0)x = 8", "(0.5^2 - 0.25)x = 1", "(1.5 - 1.5)x = 0", "(2.0^0.5 * 0)x = 0"]
 SHARED_ID_EQ_FORMS = [SHARE + t for t in ["(2y + z) + 2y = 10", "2y + (z + 2y) = 10", "x + x = 4", "2x + 3 + 2x = 7", "(x + 1) + (x + 1) = 6", "4x + y + 4x = 2", "x = x", "2x + 1 = 2x + 1",
                                           "10 = (2y + z) + 2y", "y + 3 + y = y + 3", "3 + x + 3 = 3", "2x * 2x = 16", "x + 2 = 2 + x"]]
+# a nested sum whose inner first / last addend is a product, quotient or power that merely STARTS or ENDS with a like term (three levels,
+# mixed operators): nothing to factor between the outer term and that addend
+FORMS += ["(x * y) * (z + 2)", "(12 + r) * (s + t)", "(x * y) * (y + z)", "(2 + p) * (q + 3x)", "(z + 2) * (x * y)", "(x^2 * y) * (3 + z) + 1",
+          "x + (x * y + 3)", "x + (x / y + 3)", "2x + (x^2 * y + z)", "(3 + y * x) + x", "x + (2x * y + x)", "4p + (p * (q + 1) + 2)", "(z + y / x) + x",
+          "x + ((x + 1) * y + 3)", "3x + (x^y + 2)", "x * (x + y * 3)", "2 + (2 * y + 3)"]
+
 EQ_FORMS = ["x + 1 = y = 3", "x = y + 2 = 5", "2x = 4 = y + 1", "0.00000000001x = 2", "0.0000001x = 3", "y + 4x * 2X^2 = 7", "3x + 4X = 7", "x + -2y^2 = 3", "7 = 4x + -y^3", "-2x^2 + 1 = 9", "x + -0.5y^3 = 2", "2 * ((x + 1) + 5) = 20", "((x + 1) + 5)^2 = 4", "-((x + 1) + 5) = 3", "4 - ((x + 1) + y) = 0",
             "((x + 1) + 5) / 2 = y", "sgn((x + 1) + 2) = 1", "3x = 6 + 9y", "7 = 2 + 4x + y", "a + (3b + c) = 9", "7 = x + 2 + y", "y + (x + 2) = 7", "3 = x + 2 + 7",
             "2 * 3x = 12", "(2 * 3)x = 12", "x + 2 = 5", "3y + x = 7 + 2x", "2x + 3x = 10", "x * x = 4", "0.5x = 0.25", "-3x = 9", "x / 2 + 1 = 3", "2(x + 1) + 3 = 9"]
